@@ -52,19 +52,106 @@ def gen_outcome(rng, W, benign=False):
     return out
 
 
+def make_patcher(rng, max_patches=2, prob=0.6):
+    """live patches offered while the controller sleeps: one or two patched-in components (current or a later stage,
+    sometimes a new last stage) that consume from existing components, plus new edges from them to existing
+    components that have not been launched yet"""
+    import networkx
+    import sched_driver as S
+
+    def patcher(d):
+        if d.patches >= max_patches or d.cur < 0 or rng.random() > prob:
+            return None
+        lo = d.cur if d.stage_running() else d.cur + 1
+        hi = d.nstages - 1 + (1 if rng.random() < 0.15 else 0)
+        if lo > hi:
+            return None
+        n0 = len(d.W)
+        new, outs, edges = [], [], []
+        allW = lambda p: d.W[p] if p < n0 else new[p - n0]      # noqa
+        for k in range(rng.choice([1, 1, 2])):
+            st = rng.randint(lo, hi)
+            cand = [p for p in range(n0 + len(new)) if allW(p)['stage'] <= st]
+            preds = sorted(rng.sample(cand, min(rng.choice([0, 1, 1, 2]), len(cand))))
+            same = any(allW(p)['stage'] == st for p in preds)
+            dn = comp(stage=st, rep=bool(same and rng.random() < 0.25), agg=len(preds) >= 2 and rng.random() < 0.3,
+                      repl=rng.random() < 0.2, preds=preds, sd=rng.choice([[], [], ['KnownIssue'], ['Success', 'KnownIssue']]),
+                      ro=rng.choice([['ResourceExhausted'], [], ['SubmissionFailed']]), mx=rng.choice([0, 1, 3]))
+            new.append(dn)
+            outs.append(gen_outcome(rng, [dn])[0])
+            staged = set(c.idx for c in d.ctl.comp_staged_in)
+            elig = [c for c in range(n0) if d.comps[c].runs == 0 and d.comps[c].state not in S.FINAL
+                    and c not in staged and d.W[c]['stage'] >= st]
+            for c in rng.sample(elig, min(len(elig), rng.choice([0, 1, 1, 2]))):
+                edges.append((n0 + len(new) - 1, c))
+        g = networkx.DiGraph()
+        for c in range(n0 + len(new)):
+            for p in allW(c)['preds']:
+                g.add_edge(p, c)
+        g.add_edges_from(edges)
+        if not networkx.is_directed_acyclic_graph(g):
+            edges = []
+        return ('Patch', new, edges, outs)
+    return patcher
+
+
+def apply_patch(W, ev):
+    """the description after the patch event ev (a new list; W is not modified)"""
+    import copy
+    W2 = copy.deepcopy(W) + copy.deepcopy(ev[1])
+    for (p, c) in ev[2]:
+        if p not in W2[c]['preds']:
+            W2[c]['preds'].append(p)
+    return W2
+
+
+def pad_obs(o, n):
+    """an observation taken before a patch, extended to n components (the patched-in ones: never launched)"""
+    if len(o['comps']) >= n:
+        return o
+    o2 = dict(o)
+    o2['comps'] = list(o['comps']) + [('running', False, 0, False, 0, 0)] * (n - len(o['comps']))
+    return o2
+
+
+def coq_pcase(W0, outcome, trace):
+    """a trace with Sleep / Wake / Patch events, for Sched.Patch.check_pcase; outcome: the final table (all components)"""
+    W = W0
+    items = []
+    for (ev, pre, post) in trace:
+        if ev[0] == 'PMB':
+            continue
+        if ev[0] == 'PME':
+            items.append('(PE (Ev (PM %s)), Some %s)' % (cnat(ev[1]), coq_obs(post)))
+        elif ev[0] == 'Start':
+            items.append('(PE (Ev Start), None)')
+            items.append('(PE (Ev Tick), Some %s)' % coq_obs(post))
+        elif ev[0] in ('Sleep', 'Wake'):
+            items.append('(PE %s, Some %s)' % (ev[0], coq_obs(post)))
+        elif ev[0] == 'Patch':
+            W = apply_patch(W, ev)
+            items.append('(PPatch %s, Some %s)' % (clist([coq_comp(d) for d in W]), coq_obs(post)))
+        else:
+            items.append('(PE (Ev %s), Some %s)' % (coq_event(ev), coq_obs(post)))
+    n = len(W)
+    tbl = clist([clist(outcome[c]) for c in range(n)])
+    return '(%s, %s, %s)' % (clist([coq_comp(d) for d in W0]), tbl, clist(items))
+
+
 def obs_tuple(o):
     comps = [(STATE_CODE[c[0]], c[1], c[2], c[3], c[4], c[5]) for c in o['comps']]
     v = {None: 0, 'ok': 1, 'UnexpectedJobFailureError': 2, 'FinalStageNoFinishedLeafComponents': 3}.get(o['verdict'], 9)
     return (comps, o['done'], o['stop'], o['pmq'], o['finq'], o['running'], v, o['cur'] + 1)
 
 
-def explore(W, outcome, chooser, maxlen=400, slow_pm=False, sleepy=False, start_at=0, with_cdb=False):
+def explore(W, outcome, chooser, maxlen=400, slow_pm=False, sleepy=False, start_at=0, with_cdb=False, patcher=None):
     """Runs one schedule to completion. chooser(enabled_events, step) -> index. Returns
     (trace [(event, obs_before, obs_after)], driver_errors, complete?)"""
     import sched_driver as S
     d = S.Driver(W, outcome, with_cdb=with_cdb)
     d.slow_pm = slow_pm
     d.sleepy = sleepy
+    d.patcher = patcher
     d.cur = start_at - 1        # start_at > 0: the experiment is restarted from that stage (earlier stages are skipped)
     first = True
     trace = []
@@ -76,9 +163,14 @@ def explore(W, outcome, chooser, maxlen=400, slow_pm=False, sleepy=False, start_
         can_start = (not d.stage_running()) and (first or d.verdict == 'ok') and d.cur + 1 < d.nstages
         if can_start:
             en = en + [('Start',)]
-        if not en:
-            complete = True
-            break
+        if not [e for e in en if e[0] not in ('Sleep', 'Wake', 'Patch')]:
+            # nothing but sleep()/wake_up() is left: wake a sleeping controller up (that handles what it postponed),
+            # otherwise the run is over
+            if en and d.ctl._start_sleeping:
+                en = [('Wake',)]
+            else:
+                complete = True
+                break
         ev = en[chooser(en, step) % len(en)]
         try:
             if ev[0] == 'Start':
